@@ -6,7 +6,97 @@
 #include <csignal>
 #include <unistd.h>
 
+#include "flaw.h"
+#include "resolver.h"
+#include "atom_flaw.h"
+#include <set>
+#include <algorithm>
+#include <vector>
+
 using namespace ratio;
+
+// the justification graph behind a solution (property C03): every flaw reachable from the atoms' flaws through
+// causes / resolvers / preconditions, with the truth values of phi / rho in the final assignment
+namespace oratio_verif
+{
+  struct access
+  {
+    static std::string graph(solver &s)
+    {
+      auto val = [&s](const smt::lit &l)
+      {
+        if (variable(l) == variable(smt::lit())) // a flaw that was never initialised has no phi yet
+          return "N";
+        switch (s.get_sat_core().value(l))
+        {
+        case smt::True:
+          return "T";
+        case smt::False:
+          return "F";
+        default:
+          return "U";
+        }
+      };
+      std::vector<const flaw *> todo;
+      std::set<const flaw *> seen;
+      for (const auto &[atm, f] : s.reason)
+        if (seen.insert(f).second)
+          todo.push_back(f);
+      std::vector<const flaw *> all;
+      while (!todo.empty())
+      {
+        const flaw *f = todo.back();
+        todo.pop_back();
+        all.push_back(f);
+        for (const auto &r : f->get_causes())
+          if (seen.insert(&r->get_effect()).second)
+            todo.push_back(&r->get_effect());
+        for (const auto &r : f->get_resolvers())
+          for (const auto &p : r->get_preconditions())
+            if (seen.insert(p).second)
+              todo.push_back(p);
+      }
+      std::sort(all.begin(), all.end());
+      std::ostringstream o;
+      o << "[";
+      bool first = true;
+      for (const flaw *f : all)
+      {
+        if (!first)
+          o << ", ";
+        first = false;
+        o << "{\"id\": " << f->get_id() << ", \"data\": " << f->get_data() << ", \"phi\": \"" << val(f->get_phi()) << "\", \"expanded\": " << (f->is_expanded() ? "true" : "false") << ", \"causes\": [";
+        bool fc = true;
+        for (const auto &r : f->get_causes())
+        {
+          o << (fc ? "" : ", ") << r->get_id();
+          fc = false;
+        }
+        o << "], \"resolvers\": [";
+        bool fr = true;
+        for (const auto &r : f->get_resolvers())
+        {
+          o << (fr ? "" : ", ") << "{\"id\": " << r->get_id() << ", \"data\": " << r->get_data() << ", \"rho\": \"" << val(r->get_rho()) << "\", \"preconditions\": [";
+          fr = false;
+          bool fp = true;
+          for (const auto &p : r->get_preconditions())
+          {
+            o << (fp ? "" : ", ") << p->get_id();
+            fp = false;
+          }
+          o << "]}";
+        }
+        o << "]}";
+      }
+      o << "]";
+      std::string g = o.str();
+      for (auto &c : g)
+        if (c == '\n' || c == '\r')
+          c = ' ';
+      return g;
+    }
+  };
+} // namespace oratio_verif
 
 static void on_alarm(int)
 {
@@ -63,7 +153,7 @@ int main(int argc, char *argv[])
           for (auto &c : tl)
             if (c == '\n' || c == '\r')
               c = ' ';
-          res = "T " + js + " \tTL " + tl;
+          res = "T " + js + " \tTL " + tl + " \tJG " + oratio_verif::access::graph(*s);
         }
         else
           res = "F";
